@@ -176,6 +176,17 @@ def run(F, chk):
                               "%s must register the type name returned by the stored object's GetBlockName()" % qn)
     chk.floor(R4, 2)
 
+    # ---------------------------------------------------------------- R6.6
+    R6 = chk.rule("R6.6", "a function that drops a type name when its last user goes counts the users of the type before it changes "
+                          "any entry of blockTypeIndices (sibling agreement of DeleteBlock and ReplaceBlock)")
+    for fn, bad in type_refcount_order(F):
+        chk.instance(R6, ok=not bad, sample={"fn": fn["name"], "counts_before_changing_table": not bad})
+        for n in bad[:1]:
+            chk.violation("R6.6", "C06/R6.6:%s" % fn["name"], where(fn, n),
+                          "%s changes blockTypeIndices before it has counted the remaining users of the old type: the count is off by "
+                          "one and a type name still in use is dropped (or an unused one kept)" % fn["name"])
+    chk.floor(R6, 2)
+
     # ---------------------------------------------------------------- R6.5
     S = staleidx.StaleIndex(F)
     chk.extra["deleting_functions"] = len(S.deleting)
@@ -204,6 +215,47 @@ def run(F, chk):
     chk.extra["explanation"] = ("parallel-table pairing, delete=>notify ordering, both-enumerator consumers, object-derived type "
                                 "names and the stale-index discipline, over every header mutator and every deleting function; "
                                 "comparison operators and off-by-one in the index shifting are not decided")
+
+
+def type_refcount_order(F):
+    """[(function, [offending table writes])] for every NiHeader function that can drop a type name"""
+    out = []
+    for fn in sorted(F.fns.values(), key=lambda f: f["id"]):
+        if fn.get("cls") != HDR or fn.get("tmpl") == "pattern":
+            continue
+        erases_type = any(n["k"] == "Call" and n.get("ext") and n.get("short") == "erase" and
+                          pairing.member_root(n["recv"], HDR)[0] == "blockTypes" for n in walk(fn.get("body") or {}))
+        if not erases_type:
+            continue
+
+        class Cnt(flow.Flow):
+            def __init__(self, *a):
+                super().__init__(*a)
+                self.bad = []
+
+            def on_stmt(self, s_, st):
+                if st is not None and s_["k"] == "RangeFor" and show(s_["range"]) == "blockTypeIndices" and \
+                        any(x["k"] == "Unary" and x["op"] == "++" and is_node(x["e"]) and x["e"]["k"] == "Ref" for x in walk(s_["body"])) and \
+                        not any(x["k"] == "Unary" and x["op"] == "--" for x in walk(s_["body"])):
+                    return st | {("D", "counted")}
+                return st
+
+            def on_node(self, n, st):
+                if st is None or self.muted:
+                    return st
+                tgt = None
+                if n["k"] == "Assign":
+                    tgt = n["l"]
+                elif n["k"] == "Call" and n.get("ext") and n.get("short") in ("erase", "push_back", "insert") and is_node(n.get("recv")):
+                    tgt = n["recv"]
+                if tgt is not None and pairing.member_root(tgt, HDR)[0] == "blockTypeIndices" and ("D", "counted") not in st:
+                    self.bad.append(n)
+                return st
+
+        c = Cnt(F, fn)
+        c.run()
+        out.append((fn, c.bad))
+    return out
 
 
 def _addend(arg):
